@@ -215,8 +215,8 @@ func c02(tier string, args []string) int {
 	if tier != "thorough" {
 		fams = []family{famP3(space.P3Opt{}, "P3"), famPCastle(0), famPEP([]int8{}, true, "PEP(kings+pawns, second capturer)"), famPPromo()}
 	}
-	runFamilies(run, fams, nil, c02State)
 	runTree(run, seeds, treeDepth, nil, c02State)
+	runFamilies(run, fams, nil, c02State)
 	c02Walks(run, walks)
 	return run.Finish()
 }
